@@ -27,28 +27,6 @@ Section S.
 Variable zt : ztable.
 Variable osort : N -> list BoardState -> list BoardState.
 
-(* ---- quiescence does not consult the clock *)
-Definition q_clock (qrec : q_fn) : Prop := forall b a be s v s', qrec b a be s = Ok (v, s') -> clock s' = clock s.
-
-Lemma q_loop_clock qrec : q_clock qrec -> forall ms a be s v s', q_loop qrec ms a be s = Ok (v, s') -> clock s' = clock s.
-Proof.
-  intros Hq. induction ms as [|m rest IH]; intros a be s v s' H; cbn [q_loop] in H.
-  - inversion H; reflexivity.
-  - destruct (qrec m (- be) (- a) s) as [[v1 s1]| |] eqn:E; try discriminate.
-    pose proof (Hq _ _ _ _ _ _ E) as T1.
-    destruct (be <=? - v1); [inversion H; subst; exact T1|].
-    rewrite (IH _ _ _ _ _ H). exact T1.
-Qed.
-
-Lemma quiesce_clock fuel : q_clock (quiesce zt osort fuel).
-Proof.
-  induction fuel as [|f IH]; intros b a be s v s' H; cbn [quiesce] in H; [discriminate|].
-  destruct (be <=? get_evaluation b); [inversion H; reflexivity|].
-  destruct (do_sort osort (generate_moves zt b CapturesOnly) (node_searched s)) as [moves s1] eqn:DS.
-  assert (T1 : clock s1 = clock s) by (change s1 with (snd (moves, s1)); rewrite <- DS; reflexivity).
-  rewrite (q_loop_clock _ IH _ _ _ _ _ _ H). exact T1.
-Qed.
-
 Lemma insert_cur_clock s ply m s1 : insert_into_cur_line s ply m = Ok s1 -> clock s1 = clock s.
 Proof. unfold insert_into_cur_line. destruct (arr_set (cur_line s) ply (last_move m)); intros H; inversion H; reflexivity. Qed.
 Lemma insert_killer_clock s ply m s1 : insert_killer_move s ply m = Ok s1 -> clock s1 = clock s.
@@ -67,11 +45,63 @@ Definition sim (rec1 rec2 : search_fn) : Prop :=
   forall b d ply a be n s v s', rec1 b d ply a be n s = Ok (v, s') ->
     (clock s <= clock s')%N /\ (quiet k1 s' -> rec2 b d ply a be n s = Ok (v, s')).
 
+(* the same for quiescence, which consults the clock at every node *)
+Definition qsim (q1 q2 : q_fn) : Prop :=
+  forall b a be s v s', q1 b a be s = Ok (v, s') ->
+    (clock s <= clock s')%N /\ (quiet k1 s' -> q2 b a be s = Ok (v, s')).
+
+Lemma q_loop_sim q1 q2 : qsim q1 q2 -> forall ms a be s v s',
+  q_loop q1 ms a be s = Ok (v, s') ->
+  (clock s <= clock s')%N /\ (quiet k1 s' -> q_loop q2 ms a be s = Ok (v, s')).
+Proof.
+  intros Hq. induction ms as [|m rest IH]; intros a be s v s' H; cbn [q_loop] in *.
+  - inversion H; subst. split; [lia|reflexivity].
+  - destruct (q1 m (- be) (- a) s) as [[v1 s1]| |] eqn:E; try discriminate.
+    destruct (Hq _ _ _ _ _ _ E) as [M1 S1].
+    destruct (be <=? - v1) eqn:C.
+    + inversion H; subst. split; [exact M1|]. intros Q. rewrite (S1 Q). cbn iota. rewrite C. reflexivity.
+    + destruct (IH _ _ _ _ _ H) as [M2 S2]. split; [lia|]. intros Q.
+      assert (Q1 : quiet k1 s1) by (apply (quiet_mono k1 s1 s'); [exact M2|exact Q]).
+      rewrite (S1 Q1). cbn iota. rewrite C. exact (S2 Q).
+Qed.
+
+Lemma out_of_time_quiet_false k s :
+  quiet k (snd (out_of_time k s)) -> fst (out_of_time k s) = false.
+Proof.
+  unfold out_of_time, quiet. cbn [fst snd clock with_clock]. destruct k as [kk|]; [|reflexivity].
+  intros H. apply N.leb_gt. lia.
+Qed.
+
+Lemma quiesce_sim fuel : qsim (quiesce zt osort k1 fuel) (quiesce zt osort k2 fuel).
+Proof.
+  induction fuel as [|f IH]; intros b a be s v s' H; cbn [quiesce] in *; [discriminate|].
+  assert (Cs : clock (snd (out_of_time k1 s)) = (clock s + 1)%N) by reflexivity.
+  assert (Same : snd (out_of_time k2 s) = snd (out_of_time k1 s)) by reflexivity.
+  destruct (out_of_time k1 s) as [e1 s1] eqn:E1. cbn [snd] in Cs, Same.
+  destruct (out_of_time k2 s) as [e2 s2] eqn:E2. cbn [snd] in Same. subst s2.
+  assert (F2 : forall sx, (clock s1 <= clock sx)%N -> quiet k1 sx -> e2 = false).
+  { intros sx Mx Q. assert (F : fst (out_of_time k2 s) = false).
+    { apply out_of_time_quiet_false. rewrite E2. cbn [snd]. apply (quiet_le k1 k2); [exact Hk|].
+      apply (quiet_mono k1 s1 sx); [exact Mx|exact Q]. }
+    rewrite E2 in F. exact F. }
+  destruct e1.
+  - inversion H; subst. split; [lia|]. intros Q. exfalso.
+    assert (F : fst (out_of_time k1 s) = false) by (apply out_of_time_quiet_false; rewrite E1; exact Q).
+    rewrite E1 in F. discriminate.
+  - destruct (be <=? get_evaluation b).
+    + inversion H; subst. cbn [clock node_searched with_nodes]. split; [lia|].
+      intros Q. rewrite (F2 (node_searched s1) ltac:(cbn; lia) Q). reflexivity.
+    + destruct (do_sort osort (generate_moves zt b CapturesOnly) (node_searched s1)) as [moves s3] eqn:DS.
+      assert (C3 : clock s3 = clock s1) by (change s3 with (snd (moves, s3)); rewrite <- DS; reflexivity).
+      destruct (q_loop_sim _ _ IH _ _ _ _ _ _ H) as [M T]. split; [lia|].
+      intros Q. rewrite (F2 s' ltac:(lia) Q). exact (T Q).
+Qed.
+
 Section Node.
 Variables rec1 rec2 : search_fn.
-Variable qrec : q_fn.
+Variables qrec1 qrec2 : q_fn.
 Hypothesis Hsim : sim rec1 rec2.
-Hypothesis Hq : q_clock qrec.
+Hypothesis Hq : qsim qrec1 qrec2.
 Variable b : BoardState.
 
 Lemma leave_clock v s v' s' : leave b v s = Ok (v', s') -> clock s' = clock s.
@@ -164,12 +194,12 @@ Proof.
 Qed.
 
 Lemma ab_body_sim depth ply alpha beta allow_null s v s' :
-  ab_body zt osort rec1 qrec b depth ply alpha beta allow_null s = Ok (v, s') ->
-  (clock s <= clock s')%N /\ (quiet k1 s' -> ab_body zt osort rec2 qrec b depth ply alpha beta allow_null s = Ok (v, s')).
+  ab_body zt osort rec1 qrec1 b depth ply alpha beta allow_null s = Ok (v, s') ->
+  (clock s <= clock s')%N /\ (quiet k1 s' -> ab_body zt osort rec2 qrec2 b depth ply alpha beta allow_null s = Ok (v, s')).
 Proof.
   intros H. unfold ab_body in *.
   destruct ((depth =? 0) && negb (is_check b (to_move b))).
-  { rewrite (Hq _ _ _ _ _ _ H). cbn [clock with_table]. split; [lia|intros _; exact H]. }
+  { destruct (Hq _ _ _ _ _ _ H) as [M T]. cbn [clock with_table] in M. split; [exact M|exact T]. }
   set (depth' := if depth =? 0 then depth + 1 else depth) in *.
   set (alpha' := Z.max alpha (- MATE_SCORE + ply)) in *.
   set (beta' := Z.min beta (MATE_SCORE - ply)) in *.
@@ -192,12 +222,6 @@ Qed.
 End Node.
 
 (* ---- the node function itself *)
-Lemma out_of_time_quiet_false k s :
-  quiet k (snd (out_of_time k s)) -> fst (out_of_time k s) = false.
-Proof.
-  unfold out_of_time, quiet. cbn [fst snd clock with_clock]. destruct k as [kk|]; [|reflexivity].
-  intros H. apply N.leb_gt. lia.
-Qed.
 
 Theorem alpha_beta_sim fuel : sim (alpha_beta zt osort k1 fuel) (alpha_beta zt osort k2 fuel).
 Proof.
@@ -220,7 +244,7 @@ Proof.
       { apply out_of_time_quiet_false. rewrite E2. cbn [snd]. apply (quiet_le k1 k2); [exact Hk|].
         apply (quiet_mono k1 s1 s3); [rewrite C3; lia|exact Q]. }
       rewrite E2 in F. cbn [fst] in F. subst e2. reflexivity.
-    + destruct (ab_body_sim (alpha_beta zt osort k1 f) (alpha_beta zt osort k2 f) (quiesce zt osort f) IH (quiesce_clock f)
+    + destruct (ab_body_sim (alpha_beta zt osort k1 f) (alpha_beta zt osort k2 f) (quiesce zt osort k1 f) (quiesce zt osort k2 f) IH (quiesce_sim f)
                             b d ply a be n _ _ _ H) as [M T].
       cbn [clock with_table] in M. split; [rewrite C3 in M; lia|].
       intros Q. assert (F : fst (out_of_time k2 s) = false).
